@@ -11,7 +11,11 @@ package beacon
 //@   pure
 //@   requires beaHighestSet(bea_store) ==> len(bea_store[kBHighest]) == 8
 //@   requires forall i int, t int :: {bea_store[kTs(i, t)]} tsHas(bea_store, i, t) ==> 0 <= t && t < 2^64 && tsGet(bea_store, i, t).TimestampId == t
+//@   requires forall i int :: {bea_store[kBeacon(i)]} bcHas(bea_store, i) ==> 0 <= i && i < 2^64 && bcGet(bea_store, i).BeaconId == i
 //@   let recs := gs.RegisteredBeacons
+//@   ensures @registrations_ascending forall i int, j int :: {recs[i], recs[j]} 0 <= i && i < j && j < len(recs) ==> recs[i].Beacon.BeaconId < recs[j].Beacon.BeaconId
+//@   ensures @registrations_as_stored forall j int :: {recs[j]} 0 <= j && j < len(recs) ==> bcHas(bea_store, recs[j].Beacon.BeaconId) && bcSameIdentity(recs[j].Beacon, bcGet(bea_store, recs[j].Beacon.BeaconId)) && recs[j].Beacon.LastTimestampId == bcGet(bea_store, recs[j].Beacon.BeaconId).LastTimestampId
+//@   ensures @every_registration forall x uint64 :: {bea_store[kBeacon(x)]} bcHas(bea_store, x) ==> exists j int :: 0 <= j && j < len(recs) && recs[j].Beacon.BeaconId == x
 //@   ensures @timestamps_as_stored forall j int, b int :: {recs[j].Timestamps[b]} 0 <= j && j < len(recs) && 0 <= b && b < len(recs[j].Timestamps) ==> tsHas(bea_store, recs[j].Beacon.BeaconId, recs[j].Timestamps[b].Id) && recs[j].Timestamps[b] == tsExp(tsGet(bea_store, recs[j].Beacon.BeaconId, recs[j].Timestamps[b].Id))
 //@   ensures @timestamps_ascending_and_capped forall j int :: {recs[j]} 0 <= j && j < len(recs) ==> len(recs[j].Timestamps) <= 20000 && forall a int, b int :: {recs[j].Timestamps[a], recs[j].Timestamps[b]} 0 <= a && a < b && b < len(recs[j].Timestamps) ==> recs[j].Timestamps[a].Id < recs[j].Timestamps[b].Id
 //@   ensures @newest_timestamps_without_gaps forall j int, t uint64 :: {bea_store[kTs(recs[j].Beacon.BeaconId, t)]} 0 <= j && j < len(recs) && tsHas(bea_store, recs[j].Beacon.BeaconId, t) && (len(recs[j].Timestamps) < 20000 || t >= recs[j].Timestamps[0].Id) ==> exists b int :: 0 <= b && b < len(recs[j].Timestamps) && recs[j].Timestamps[b].Id == t
@@ -21,7 +25,7 @@ package beacon
 //@   ensures @next_id beaHighestSet(bea_store) ==> beaHighestIs(bea_store, gs.StartingBeaconId)
 //@   loop 0: invariant 0 - 1 <= rangeindex && rangeindex < len(beacons) && len(records) == rangeindex + 1
 //@   loop 0: invariant forall j int :: {records[j]} 0 <= j && j < len(records) ==> records[j].Beacon.NumInState == len(records[j].Timestamps) && records[j].Beacon.FirstIdInState == (len(records[j].Timestamps) > 0 ? records[j].Timestamps[0].Id : 0)
-//@   loop 0: invariant forall j int :: {records[j]} 0 <= j && j < len(records) ==> records[j].Beacon.BeaconId == beacons[j].BeaconId && records[j].Beacon.Owner == beacons[j].Owner && records[j].Beacon.LastTimestampId == beacons[j].LastTimestampId && records[j].Beacon.Moniker == beacons[j].Moniker
+//@   loop 0: invariant forall j int :: {records[j]} {beacons[j]} 0 <= j && j < len(records) ==> bcSameIdentity(records[j].Beacon, beacons[j]) && records[j].Beacon.LastTimestampId == beacons[j].LastTimestampId
 //@   loop 0: invariant forall j int :: {records[j]} 0 <= j && j < len(records) && blimHas(bea_store, records[j].Beacon.BeaconId) ==> records[j].InStateLimit == blimGet(bea_store, records[j].Beacon.BeaconId)
 //@   loop 0: invariant forall j int, b int :: {records[j].Timestamps[b]} 0 <= j && j < len(records) && 0 <= b && b < len(records[j].Timestamps) ==> tsHas(bea_store, records[j].Beacon.BeaconId, records[j].Timestamps[b].Id) && records[j].Timestamps[b] == tsExp(tsGet(bea_store, records[j].Beacon.BeaconId, records[j].Timestamps[b].Id))
 //@   loop 0: invariant forall j int :: {records[j]} 0 <= j && j < len(records) ==> len(records[j].Timestamps) <= 20000 && forall a int, b int :: {records[j].Timestamps[a], records[j].Timestamps[b]} 0 <= a && a < b && b < len(records[j].Timestamps) ==> records[j].Timestamps[a].Id < records[j].Timestamps[b].Id
